@@ -276,6 +276,18 @@ def run_tensor(spec, res):
         g = f2.copy()
         fd.d3_rank2tensor(f2)
         cmpv("input untouched", f2, g)
+        # the caller re-fills the SAME array object between calls (a work array):
+        # the result must follow the current content (doubling is exact in binary)
+        for label, fn, arr in (("d3_scalar", fd.d3_scalar, f0), ("d3x", fd.d3x, f0),
+                               ("d3_rank1tensor", fd.d3_rank1tensor, f1),
+                               ("d3_rank2tensor", fd.d3_rank2tensor, f2)):
+            ref = np.array(fn(arr))
+            arr *= 2.0
+            cmpv(f"{label} on a re-filled array object", fn(arr), 2.0 * ref)
+            new = rng.normal(size=arr.shape)
+            want = np.array(fn(new.copy()))
+            arr[...] = new
+            cmpv(f"{label} on an overwritten array object", fn(arr), want)
     # y/z operators are the x operator under axis exchange (non-cubic grid)
     with common.Quiet():
         f = rng.normal(size=shape)
